@@ -56,6 +56,58 @@ pub fn proj_dt(d: &DateTime) -> Value {
            "ns": d.nano(), "off": d.get_offset().resolve()})
 }
 
+/// Every reading of `d` the API offers beyond timestamp/nano/offset, as one JSON value; each reading is
+/// taken under its own guard so that a panic is an observation like any other.
+fn readings(d: &DateTime) -> Value {
+    use crate::util::{guarded, Outcome};
+    fn g<T: serde::Serialize>(f: impl FnOnce() -> T) -> Value {
+        match guarded(f) {
+            Outcome::Ok(v) => serde_json::to_value(v).unwrap_or(Value::Null),
+            Outcome::Panic(_) => json!("panic"),
+        }
+    }
+    let partner = DateTime::from_timestamp(949_320_000); // 2000-01-31T12:00:00Z
+    let basic = |x: DateTime| {
+        let ts = x.timestamp();
+        (ts, x.nano(), x.get_offset().resolve())
+    };
+    json!([
+        g(|| d.as_ymdhms()),
+        g(|| Date::from(d).timestamp()),
+        g(|| { let t = Time::from(d); (t.as_nanos().to_string(), t.get_offset().resolve()) }),
+        g(|| (d.years_since(&partner), d.months_since(&partner), partner.months_since(d))),
+        g(|| (d.days_since(&partner), d.hours_since(&partner), d.nanos_since(&partner).to_string())),
+        g(|| d.format("yyyy-MM-dd HH:mm:ss.nnnnn xxxxx e D w q G a")),
+        g(|| d.format_rfc3339(astrolabe::Precision::Nanos)),
+        g(|| d.to_string()),
+        g(|| (d.year(), d.month(), d.day(), d.day_of_year(), d.weekday(), d.hour(), d.minute(), d.second())),
+        g(|| basic(d.set_offset(Offset::Fixed(19_800)))),
+        g(|| basic(d.as_offset(Offset::Fixed(-3_600)))),
+        g(|| d.set_offset(Offset::Fixed(-7_200)).set_day(1).map(basic).map_err(|e| e.to_string())),
+        g(|| d.set_offset(Offset::Fixed(7_200)).set_hour(23).map(basic).map_err(|e| e.to_string())),
+        g(|| d.set_day(15).map(basic).map_err(|e| e.to_string())),
+        g(|| d.set_minute(0).map(basic).map_err(|e| e.to_string())),
+        g(|| basic(d.add_days(1))),
+        g(|| basic(d.sub_nanos(1))),
+        g(|| basic(d.add_months(1))),
+        g(|| basic(d.clear_until_hour())),
+        g(|| basic(d.clear_until_day())),
+        g(|| basic(d.set_time(Time::from_hms(1, 2, 3).unwrap()))),
+    ])
+}
+
+/// DateTime projection incl. the canonical-representation observation: all readings of `d` equal the
+/// readings of a value rebuilt from (timestamp, nanosecond, offset) through the public constructors, and
+/// the two compare equal.
+pub fn proj_dt_full(d: &DateTime) -> Value {
+    let mut p = proj_dt(d);
+    let canon = dt_at(p["dn"].as_i64().unwrap(), p["sod"].as_i64().unwrap(), p["ns"].as_u64().unwrap() as u32,
+                      p["off"].as_i64().unwrap() as i32);
+    let eqc = canon == *d && *d == canon && canon.cmp(d) == std::cmp::Ordering::Equal && readings(d) == readings(&canon);
+    p["eqc"] = json!(eqc);
+    p
+}
+
 pub fn proj_time(t: &Time) -> Value {
     json!({"k": "ok", "nod": wide(t.as_nanos()), "off": t.get_offset().resolve()})
 }
